@@ -74,6 +74,7 @@ def codecs : List Codec :=
 inductive Err
   | commandError
   | attributeError
+  | converterError     -- an exception of the converter that is not a PyDelphinException escapes the command
 deriving Repr, DecidableEq
 
 /-- `commands._get_codec`: `KeyError` of the lookup becomes `CommandError`. -/
@@ -139,6 +140,7 @@ inductive Outcome
   | ok (t : Str)
   | convFail
   | encFail
+  | convCrash      -- the converter raised something else (e.g. IndexError, finding F08): `_iter_convert` does not catch it
 deriving Repr, DecidableEq
 
 def Outcome.text? : Outcome → Option Str
@@ -149,7 +151,16 @@ def parts (os : List Outcome) : List Str := os.filterMap Outcome.text?
 
 def Outcome.reachesEncode : Outcome → Bool
   | .convFail => false
+  | .convCrash => false
   | _ => true
+
+/-- the items are pulled one at a time (read, convert, encode): the first thing that goes wrong, in input order --
+a converter crash, or an item reaching `target_codec.encode` when the module has no `encode` (AttributeError). -/
+def firstErr (canEncode : Bool) : List Outcome → Option Err
+  | [] => none
+  | .convCrash :: _ => some .converterError
+  | .convFail :: r => firstErr canEncode r
+  | _ :: r => if canEncode then firstErr canEncode r else some .attributeError
 
 structure Plan where
   src : Codec
@@ -182,8 +193,9 @@ def convert (srcFmt tgtFmt : Str) (indent : Bool) (nproj : Nat) (os : List Outco
   | .error e => .error e
   | .ok p =>
     if !p.src.canLoad && (!p.srcLines || !os.isEmpty) then .error .attributeError
-    else if !p.tgt.canEncode && os.any Outcome.reachesEncode then .error .attributeError
-    else .ok (assemble (frameOf p.tgt) indent p.tgtLines (parts os))
+    else match firstErr p.tgt.canEncode os with
+      | some e => .error e
+      | none => .ok (assemble (frameOf p.tgt) indent p.tgtLines (parts os))
 
 /-! ### Item scanners (generic "stop at the first accepting state" scanner) -/
 
@@ -467,7 +479,16 @@ def codecFramesOk (c : Codec) : Bool :=
   frameOkFor (familyOf c) (frameOf c) (effFrame (frameOf c) false false) &&
   frameOkFor (familyOf c) (frameOf c) (effFrame (frameOf c) true false)
 
-/-! ### Item predicates (what an item text must be for the family's reader) -/
+/-! ### Item predicates (what an item text must be for the family's reader)
+
+RESTRICTION.  `tokSplit` / `jsonSplit` / `xmlSplit` are item-boundary splitters (bracket depth with double-quoted
+strings; tag depth); they model no single function of /repo — the real `loads` of the token-stream codecs lexes the
+whole text and parses item after item.  `TokItem` therefore holds only for item texts whose brackets outside
+double-quoted strings are balanced: it FAILS for items that are inside C01–C03's spaces but carry a bracket in an
+unquoted symbol (SimpleMRS predicate `_a(b_n_1`, SimpleDMRS predicate `_a)_n_1`).  The harness keeps such predicates
+(and empty property values) out of its generators and checks `TokItem`/`JsonItem`/`XmlItem` on every real item text
+it converts.  The restriction-free statements for SimpleDMRS and native EDS are in `Verif/Integration/Frame.lean`:
+there the reader is C02's / C03's model of the real lexer and parser. -/
 
 def TokItem (angle : Bool) (it : Str) : Prop :=
   (∃ c cs, it = c :: cs ∧ isSp c = false) ∧ scan (tokM angle) it = some (it, [])
